@@ -708,6 +708,9 @@ class FnText:
     def add_at_ident(self, where, ident, n, text, origin):
         seen = 0
         lo, hi = self.body_sig_range()
+        if n < 0:   # negative ordinal: counted from the END of the body (-1 = last occurrence)
+            occ = [i for i in range(lo, hi) if self.stok(i).kind == 'ident' and self.stok(i).text == ident]
+            n = len(occ) + 1 + n if len(occ) + n >= 0 else 0
         for i in range(lo, hi):
             t = self.stok(i)
             if t.kind == 'ident' and t.text == ident:
